@@ -203,10 +203,14 @@ impl DummyExecution {
     /// is not this block.
     fn lookup(&self, block_id: &BlockId) -> Option<&BlockExec> {
         let (slot, hash) = block_id;
-        let exec = match self.blocks.get(&InProgressBlock::Known(block_id.clone())) {
-            Some(exec) => exec,
-            None => self.blocks.get(&InProgressBlock::Pending(*slot))?,
-        };
+        // the block may be tracked twice, under its id (repair) and under its slot
+        // (dissemination): a copy that is still streaming does not hide one that has ended
+        if let Some(exec) = self.blocks.get(&InProgressBlock::Known(block_id.clone()))
+            && exec.block_hash.as_ref() == Some(hash)
+        {
+            return Some(exec);
+        }
+        let exec = self.blocks.get(&InProgressBlock::Pending(*slot))?;
         match &exec.block_hash {
             Some(h) if h == hash => Some(exec),
             _ => None,
